@@ -180,6 +180,18 @@ def run_case(case):
                 ex = exact[fi, pi]
                 if np.any(np.abs(e - ex) > 1e-9 * (1 + np.abs(ex))):
                     viol.append(V(site, "eager_value_differs_from_exact_operator", f"d={d} time={time} n_out={n_out} field [{labels[fi]}] point {pts[pi].tolist()}: got {e.tolist()} exact {np.asarray(ex).tolist()}"))
+    # the number of components written in other valid integer forms (NumPy integers, as np.prod / array sizes give them;
+    # the documented default None when it equals the space dimension)
+    if op == "vector_laplacian" and not viol:
+        forms = [("np.int64", np.int64(n_out)), ("np.int32", np.int32(n_out))] + ([("None", None)] if n_out == d else [])
+        fi, pi = len(labels) - 1, len(pts) - 1
+        p_ = make_params(fields[fi], {"nu": 0.3})
+        for fname, form in forms:
+            z = zp[pi]
+            e = np.asarray(JL._vectorial_laplacian(z[:1], z[1:], u, p_, u_vec_ndim=form) if time else JL._vectorial_laplacian(None, z, u, p_, u_vec_ndim=form))
+            ex = np.asarray(exact[fi, pi])
+            if e.reshape(-1).shape != ex.reshape(-1).shape or np.any(np.abs(e.reshape(-1) - ex.reshape(-1)) > 1e-9 * (1 + np.abs(ex.reshape(-1)))):
+                viol.append(V(site, "value_depends_on_the_integer_form_of_u_vec_ndim", f"d={d} time={time} u_vec_ndim={fname}({n_out}): got {e.tolist()} exact {ex.tolist()}"))
     nontrivial = [f"{op}|{d}|{time}|{n_out}|{labels[i]}" for i in range(len(labels)) if np.any(np.abs(exact[i]) > 0)]
     return dict(viol=viol, evals=int(exact.shape[0] * exact.shape[1]) * 2, nontrivial=nontrivial,
                 outcomes=[f"{op}|{d}|{time}|{n_out}|{round(float(np.sum(np.abs(exact))), 6)}"],
